@@ -3,6 +3,7 @@ package main
 import (
 	"bytes"
 	"context"
+	"errors"
 	"fmt"
 	"io"
 	"math"
@@ -46,6 +47,11 @@ func init() {
 // terminates this process only. mode: "<strict 0|1>:<maxStackMiB>:<addressSpaceMiB>".
 func c14Child(mode string) {
 	parts := strings.Split(mode, ":")
+	if parts[0] == "concur" {
+		n, _ := strconv.Atoi(parts[1])
+		c14ChildConcur(n)
+		return
+	}
 	strict := parts[0] == "1"
 	if n, _ := strconv.Atoi(parts[1]); n > 0 {
 		debug.SetMaxStack(n << 20)
@@ -64,6 +70,126 @@ func c14Child(mode string) {
 	runtime.ReadMemStats(&m1)
 	fmt.Printf("RESULT msgs=%d err=%v alloc=%d ms=%d\n", len(msgs), err != nil, m1.TotalAlloc-m0.TotalAlloc, el.Milliseconds())
 	os.Exit(0)
+}
+
+// c14ChildConcur: the package-level helpers sml.Parse / sml.ParseStrict are entry points too; concurrent callers of
+// the SAME helper on DIFFERENT texts must get what sequential callers get (no parser cursor shared behind the
+// helper). Run in a child process: shared mutable parser state torn by a race can corrupt memory and kill the process
+// (after seeded change C14c-2).
+func c14ChildConcur(rounds int) {
+	var mu sync.Mutex
+	diffs, panics := 0, 0
+	first := ""
+	var wg sync.WaitGroup
+	for g := 0; g < 8; g++ {
+		wg.Add(1)
+		go func(g int) {
+			defer wg.Done()
+			letter := string(rune('a' + g))
+			for n := 0; n < rounds; n++ {
+				ln := 1 + (n*7+g)%200
+				val := strings.Repeat(letter, ln)
+				text := "S1F1 W\n<A \"" + val + "\">\n."
+				if n%3 == 0 {
+					text = fmt.Sprintf("S1F1 W\n<A[%d] \"%s\">\n.", ln, val)
+				}
+				if n%5 == 0 { // an erroneous text too: the reported offset must stay inside ITS input
+					text = text[:len(text)-3]
+				}
+				for _, strict := range []bool{true, false} {
+					func() {
+						defer func() {
+							if p := recover(); p != nil {
+								mu.Lock()
+								panics++
+								if first == "" {
+									first = fmt.Sprintf("panic %v on %q", p, text)
+								}
+								mu.Unlock()
+							}
+						}()
+						var msgs []*hsms.DataMessage
+						var err error
+						if strict {
+							msgs, err = sml.ParseStrict(text)
+						} else {
+							msgs, err = sml.Parse(text)
+						}
+						want, _ := sml.NewParser(sml.WithParserStrictMode(strict)).Parse(text)
+						got, exp := "", ""
+						if err == nil && len(msgs) == 1 {
+							if it, e := msgs[0].Item(); e == nil {
+								got, _ = it.ToASCII()
+							}
+						}
+						if len(want) == 1 {
+							if it, e := want[0].Item(); e == nil {
+								exp, _ = it.ToASCII()
+							}
+						}
+						bad := got != exp || len(msgs) != len(want)
+						var pe *sml.ParseError
+						if errors.As(err, &pe) && (pe.Offset < 0 || pe.Offset > len(text)) {
+							bad = true
+						}
+						if bad {
+							mu.Lock()
+							diffs++
+							if first == "" {
+								first = fmt.Sprintf("%q -> %q (err %v), an own parser gives %q", text, got, err, exp)
+							}
+							mu.Unlock()
+						}
+					}()
+				}
+			}
+		}(g)
+	}
+	wg.Wait()
+	fmt.Printf("CONCUR diffs=%d panics=%d first=%s\n", diffs, panics, strings.ReplaceAll(first, "\n", "\\n"))
+	os.Exit(0)
+}
+
+// c14ConcurrentHelpers runs c14ChildConcur in a child process and judges it.
+func c14ConcurrentHelpers(c *Ctx) {
+	exe, err := os.Executable()
+	if err != nil {
+		c.Note("cannot find own executable: %v", err)
+		return
+	}
+	rounds := c.Pick(1500, 15000)
+	ctx, cancel := context.WithTimeout(context.Background(), 120*time.Second)
+	defer cancel()
+	cmd := exec.CommandContext(ctx, exe)
+	cmd.Env = append(os.Environ(), fmt.Sprintf("VERIF_SML_CHILD=concur:%d", rounds), "GOTRACEBACK=single")
+	var out, errb bytes.Buffer
+	cmd.Stdout, cmd.Stderr = &out, &errb
+	runErr := cmd.Run()
+	c.Count("concurrency-package-helpers", true)
+	c.StatN("concurrent-helper-parses", 8*rounds*2)
+	replay := map[string]any{"scenario": "8 goroutines call sml.Parse / sml.ParseStrict on distinct texts", "rounds": rounds}
+	var diffs, panics int
+	firstS := ""
+	if i := strings.Index(out.String(), "CONCUR "); i >= 0 && runErr == nil {
+		line := out.String()[i:]
+		fmt.Sscanf(line, "CONCUR diffs=%d panics=%d", &diffs, &panics)
+		if j := strings.Index(line, "first="); j >= 0 {
+			firstS = strings.TrimSpace(line[j+6:])
+		}
+		if diffs+panics > 0 {
+			replay["first"] = clip(firstS, 1500)
+			c.Violate("property", "concurrent-result-differs", fmt.Sprintf("package-level helpers used concurrently: %d results differed from an own parser's, %d calls panicked; first: %s", diffs, panics, clip(firstS, 300)), replay)
+		}
+		return
+	}
+	if ctx.Err() != nil {
+		c.Violate("property", "concurrent-use-hung", "concurrent use of the package-level helpers did not finish within 120 s", replay)
+		return
+	}
+	se := strings.TrimSpace(errb.String())
+	head, _, _ := strings.Cut(se, "\n")
+	replay["stderr"] = clip(se, 3000)
+	c.Violate("property", "concurrent-use-crashed-the-process", fmt.Sprintf("concurrent use of the package-level helpers killed the process (%v): %s", runErr, clip(head, 200)), replay)
 }
 
 type c14ChildResult struct {
@@ -370,6 +496,7 @@ func runC14(c *Ctx) {
 	// deterministic probes first: the representative replay of each signature is then seed-independent
 	c14HintAllocation(c)
 	c14ChildProbes(c)
+	c14ConcurrentHelpers(c)
 	for i, in := range inputs {
 		c.Stat("tag:" + in.tag)
 		if !c14SafeInProcess(in.text) {
